@@ -272,8 +272,12 @@ def report(ctx, pid, rows, viols, scenarios, tag):
             continue
         sid, seg = seg_of(rows, idx)
         ev = rows[idx - 1] if 0 < idx <= len(rows) else None
+        sc = byid.get(sid)
+        group = [sc] if sc else []
+        if sc and sc.get("kind") == "persist":      # a persist run is judged against its control run
+            group = [s for s in scenarios if s.get("kind") == "control" and s.get("pair") == sc.get("pair")] + group
         ctx.violation(sig, {"scenario": sid, "event_index": idx, "event": ev, "got_vs_expected": detail},
-                      replay_src={"scenario": byid.get(sid), "seed": ctx.seed, "source": tag})
+                      replay_src={"scenarios": group, "seed": ctx.seed, "source": tag})
         n += 1
     return n
 
@@ -461,6 +465,21 @@ def first_segments(rows, nseg):
 
 # ------------------------------------------------------------------------------------------------
 
+def replay(ctx, pid):
+    """./check <pid> --replay FILE: re-execute the scenario(s) of a replay file and judge them again"""
+    with open(ctx.replay) as f:
+        rp = json.load(f)
+    scs = (rp.get("scenario") or {}).get("scenarios") or []
+    if not scs:
+        raise C.ToolError("replay file %s holds no scenario" % ctx.replay)
+    bd = bindir(ctx)
+    abi = wire.export_abi(ctx)
+    rows, viols, drifts, trf = execute(ctx, bd, abi, scs, "replay")
+    n = report(ctx, pid, rows, viols, scs, "replay-file")
+    C.log("replayed %d scenario(s) of %s: %d event(s), %d violation(s) of %s" % (len(scs), ctx.replay, len(rows), n, pid))
+    ctx.extra["rule"] = "replay of " + ctx.replay
+
+
 def common_run(ctx, pid, persist):
     bd = bindir(ctx)
     abi = wire.export_abi(ctx)
@@ -489,6 +508,8 @@ def plain_sources(ctx, bd, abi, present, tag, idpred=True):
 
 
 def run_c07(ctx):
+    if getattr(ctx, "replay", None):
+        return replay(ctx, "C07")
     bd, abi, present, r, extra_sc, _ = common_run(ctx, "C07", False)
     try:
         scs, rnd = plain_sources(ctx, bd, abi, present, "c07", idpred=False)   # the id predictions depend on the C14 defects
@@ -532,6 +553,8 @@ def run_c07(ctx):
 
 
 def run_c14(ctx):
+    if getattr(ctx, "replay", None):
+        return replay(ctx, "C14")
     bd, abi, present, r, extra_sc, _ = common_run(ctx, "C14", False)
     try:
         scs, rnd = plain_sources(ctx, bd, abi, present, "c14")
@@ -573,6 +596,8 @@ def run_c14(ctx):
 
 
 def run_c19(ctx):
+    if getattr(ctx, "replay", None):
+        return replay(ctx, "C19")
     bd, abi, present, r, extra_sc, _ = common_run(ctx, "C19", True)
     try:
         quick = ctx.quick
